@@ -140,6 +140,7 @@ func (s *Sim) iterOp(what string, wtxn statedb.WriteTxn, t *simTable, locked boo
 		si := &simIter{name: fmt.Sprintf("%s#%d", t.name, s.iterSeq), it: it, table: t, creationRev: t.tbl.Revision(wtxn), createdIn: what,
 			replay: map[string]Obs{}, gotDelete: map[string][]uint64{}}
 		t.iters = append(t.iters, si)
+		t.settled = false
 		return
 	}
 	// Next with a write transaction: only committed changes may be delivered
@@ -161,6 +162,13 @@ func (s *Sim) liveIters(t *simTable) []*simIter {
 	return out
 }
 
+// iterNextFull is iterNext with full consumption.
+func (s *Sim) iterNextFull(what string, it *simIter, txn statedb.ReadTxn, m *TableModel) {
+	s.forceFull = true
+	defer func() { s.forceFull = false }()
+	s.iterNext(what, it, txn, m)
+}
+
 // iterNext calls Next with the given transaction whose committed view of the table is model m.
 func (s *Sim) iterNext(what string, it *simIter, txn statedb.ReadTxn, m *TableModel) {
 	if m.Rev < it.lastSnapRev || m.Rev < it.creationRev {
@@ -170,7 +178,7 @@ func (s *Sim) iterNext(what string, it *simIter, txn statedb.ReadTxn, m *TableMo
 	seq, watch := it.it.Next(txn)
 	closed := isClosed(watch)
 	limit := -1
-	if s.Rng.IntN(3) == 0 {
+	if !s.forceFull && s.Rng.IntN(3) == 0 {
 		limit = s.Rng.IntN(4)
 	}
 	n := 0
@@ -308,6 +316,7 @@ func (s *Sim) IterStep(i int) {
 			wtxn.Commit()
 			si.committed = true
 			t.iters = append(t.iters, si)
+			t.settled = false
 		}
 		s.open = nil
 		if rt := s.DB.ReadTxn(); t.tbl.Revision(rt) != t.committed.Rev {
